@@ -271,6 +271,14 @@ func vwBuild(shape []vwSegShape, splitMask int) *vwWorld {
 	return w
 }
 
+func be64w(b []byte, o int) uint64 {
+	var v uint64
+	for i := 0; i < 8; i++ {
+		v = v<<8 | uint64(b[o+i])
+	}
+	return v
+}
+
 func vwMACInput(beta uint16, ts uint32, exp uint8, ci, ce uint16) []byte {
 	in := make([]byte, 16)
 	in[2], in[3] = byte(beta>>8), byte(beta)
@@ -295,11 +303,31 @@ type vwPktDesc struct {
 	dstPort, srcPort uint16
 	path             []byte // serialised path (meta header, info fields, hop fields)
 	word0            uint32 // version 0, traffic class, flow id
+	l4               byte   // 0: UDP header built from the ports; otherwise next-header value of pld
+	pld              []byte
 }
 
 func vwSerialize(p vwPktDesc) []byte {
 	hdrLen := vwPathOff + len(p.path)
+	if p.l4 != 0 {
+		b := make([]byte, hdrLen+len(p.pld))
+		vwSerializeHdr(p, b, hdrLen)
+		b[4] = p.l4
+		b[6], b[7] = byte(len(p.pld)>>8), byte(len(p.pld))
+		copy(b[hdrLen:], p.pld)
+		return b
+	}
 	b := make([]byte, hdrLen+vwPldLen)
+	vwSerializeHdr(p, b, hdrLen)
+	u := b[hdrLen:]
+	u[0], u[1] = byte(p.srcPort>>8), byte(p.srcPort)
+	u[2], u[3] = byte(p.dstPort>>8), byte(p.dstPort)
+	u[4], u[5] = 0, 8
+	// u[6:8] checksum: not inspected by routers
+	return b
+}
+
+func vwSerializeHdr(p vwPktDesc, b []byte, hdrLen int) {
 	b[0], b[1], b[2], b[3] = byte(p.word0>>24)&0x0f, byte(p.word0>>16), byte(p.word0>>8), byte(p.word0)
 	b[4] = 17 // UDP
 	b[5] = byte(hdrLen / 4)
@@ -313,12 +341,6 @@ func vwSerialize(p vwPktDesc) []byte {
 	copy(b[28:32], p.dstHost[:])
 	copy(b[32:36], p.srcHost[:])
 	copy(b[vwPathOff:], p.path)
-	u := b[hdrLen:]
-	u[0], u[1] = byte(p.srcPort>>8), byte(p.srcPort)
-	u[2], u[3] = byte(p.dstPort>>8), byte(p.dstPort)
-	u[4], u[5] = 0, 8
-	// u[6:8] checksum: not inspected by routers
-	return b
 }
 
 // vwPathBytes serialises the world's path with CurrINF = CurrHF = 0.
